@@ -31,8 +31,10 @@ func durableSuccess(o *ObjView) bool {
 		return true
 	}
 	if o.Status == workflow.Running && len(o.Att) > 0 {
+		// an attempt is recorded only after its invocation returned, so a stored attempt without an error IS the
+		// plugin's successful answer - whether or not its end time made it into the same write
 		last := o.Att[len(o.Att)-1]
-		return !last.HasErr && !last.End.IsZero()
+		return !last.HasErr
 	}
 	return false
 }
